@@ -44,6 +44,10 @@ func c04Factored(c *fw.Ctx) {
 		tb := doc.Text(factored)
 		c.Distinct(tb)
 		b := run1(tb)
+		if docTap != nil {
+			docTap(label, tb, b)
+			return
+		}
 		if b.Crashed() {
 			c.Count("skipped_crash", 1)
 			return
